@@ -111,6 +111,8 @@ def receivers(tier):
     out = []
     for tname, lst in w.items():
         take = lst if tier == "thorough" else lst[:2]
+        if tname == "Quantifier" and tier != "thorough":
+            take = lst[:2] + [x for x in lst if x[0].endswith("*")][:1]       # a star-quantified receiver as well
         if tname == "Assertion":
             take = lst if tier == "thorough" else [lst[0], lst[2], lst[6], lst[7]]
         for text, rep in take:
